@@ -58,9 +58,11 @@ def numbers():
     )
 
 
-BLOCK_NAMES = ["div", "p", "ul", "li", "section", "h1", "table", "tr", "td", "form", "blockquote", "body", "head", "main"]
+BLOCK_NAMES = ["div", "p", "ul", "li", "section", "h1", "table", "tr", "td", "form", "blockquote", "body", "head", "main", "select", "tbody", "datalist", "optgroup", "colgroup", "thead"]
 INLINE_NAMES = ["span", "a", "b", "i", "em", "strong", "code", "label", "small", "sub", "u", "q"]
 _ALPHA = "abcdefghijklmnopqrstuvwxyzABCDEFGHIJKLMNOPQRSTUVWXYZ"
+# ordinary (custom) element names that merely contain / start with the names of the two raw-text elements
+RAWISH_NAMES = ["styled-text", "style-guide", "styles", "script-runner", "scripts", "x-style", "my-script", "noscript", "stylesheet"]
 CUSTOM_NAME = st.builds(
     lambda a, b: a + b, st.sampled_from(_ALPHA), st.text(alphabet=_ALPHA + "0123456789._:-", max_size=12)
 )
@@ -152,6 +154,9 @@ def layout_tag(children, max_kids: int = 5):
             # name and flag disagree / raw-text names with plain content
             name, ws = (["span", "div", "script", "style", "pre", "x-y"][bi % 6], bool(ii % 2))
         attrs = [["class", "c" + str(attr)]] if attr else []
+        if attr == 3:
+            # a wide opening tag (several attributes, > 120 columns)
+            attrs = [["class", "c3"], ["title", "t" * 70], ["data-k", "v" * 60]]
         return {"k": "tag", "name": name, "ws": ws, "attrs": attrs, "kids": kids}
 
     return st.builds(
@@ -161,7 +166,7 @@ def layout_tag(children, max_kids: int = 5):
         st.integers(0, 50),
         st.integers(0, 50),
         st.one_of(st.lists(children, min_size=2, max_size=max_kids), st.lists(children, min_size=1, max_size=max_kids), st.lists(children, max_size=2)),
-        st.integers(0, 2),
+        st.sampled_from([0, 0, 1, 2, 3]),
     )
 
 
